@@ -19,7 +19,7 @@ class Builder:
         given = {k.rstrip('_'): v for k, v in fields.items()}
         if set(given) != set(names):
             raise Unsupported(f'struct {name}: fields in source {names} != fields the check provides {sorted(given)}')
-        return Agg(None, [given[n] for n in names], name)
+        return Agg(None, [given[n] for n in names], name.split('::')[-1])
 
     def variant(self, enum, variant, *payload):
         vs = self.L.enums.get(enum)
